@@ -13,7 +13,7 @@ from hyverif.oracles.flowgraph import FlowGraph, DIRS, SQRT2
 
 ID = "C06"
 SHARDS = {"quick": 16, "thorough": 16}
-BUDGET = {"quick": 90, "thorough": 900}
+BUDGET = {"quick": 300, "thorough": 1800}
 HANG_IS_VIOLATION = True
 EXHAUSTIVE = True
 RULE = ("EXHAUSTIVE: every r x c grid with r*c <= 4 (quick) / <= 5 (thorough; "
